@@ -53,10 +53,10 @@ func (s *SolverStats) add(o *SolverStats) {
 }
 
 type proc struct {
-	kind string
-	cmd  *exec.Cmd
-	in   io.WriteCloser
-	out  *bufio.Reader
+	kind  string
+	cmd   *exec.Cmd
+	in    io.WriteCloser
+	out   *bufio.Reader
 	lines chan string
 }
 
